@@ -47,7 +47,7 @@ var (
 	extSels   = []string{"nil", "extension-all", "extension-none", "extension-custom", "negotiate-accept", "negotiate-decline", "negotiate-error", "negotiate-wsflate"}
 	hdrKinds  = []string{"nil", "string", "bytes", "func", "http"}
 	rejects   = []string{"", "OnRequest", "OnHost", "OnHeader", "OnBeforeUpgrade"}
-	rejKinds  = []string{"plain", "custom", "nostatus"}
+	rejKinds  = []string{"plain", "custom", "nostatus", "plain-slice", "plain-struct"}
 
 	protoOffers = [][]string{nil, {"chat"}, {"chat, superchat"}, {"mqtt", "json, chat.v2"}, {"chat.v2 ,json"}, {"x-1,x-2,x-3,json"},
 		// names differing only in letter case / prefixes of an accepted name: selection is exact and in client order
@@ -106,10 +106,27 @@ const (
 	customStatus = 403
 )
 
+// multiErr and richErr are plain errors whose dynamic types cannot be compared / hashed
+// (a slice; a struct holding a map): applications return such values too.
+type multiErr []error
+
+func (m multiErr) Error() string { return fmt.Sprintf("%d problems: %v", len(m), m[0]) }
+
+type richErr struct {
+	msg  string
+	meta map[string]string
+}
+
+func (r richErr) Error() string { return r.msg }
+
 func rejection(kind string) (error, int, string, string) {
 	switch kind {
 	case "plain":
 		return errors.New("plain boom"), 500, "plain boom", ""
+	case "plain-slice":
+		return multiErr{errors.New("first"), errors.New("second")}, 500, "2 problems: first", ""
+	case "plain-struct":
+		return richErr{"rich boom", map[string]string{"k": "v"}}, 500, "rich boom", ""
 	case "custom":
 		return ws.RejectConnectionError(ws.RejectionStatus(customStatus), ws.RejectionReason("custom nope"), ws.RejectionHeader(ws.HandshakeHeaderString("X-Reject: yes\r\n"))), customStatus, "custom nope", "yes"
 	}
